@@ -309,7 +309,7 @@ func c10Stream(r *core.Run, i int) *gen.Stream {
 }
 
 func runC10(r *core.Run) {
-	r.Rule("for each generated stream (junk + 1..2 goroutine dumps / race reports, 0.2-4 KB): EVERY byte offset as the cut x 3 ways of signalling it (EOF; sticky reader error after the data; reader error returned together with the last data); " +
+	r.Rule("for each generated stream (junk + 1..2 goroutine dumps / race reports, 0.2-4 KB): EVERY byte offset as the cut x up to 5 ways of signalling it (EOF; sticky reader error after the data; reader error returned together with the last data; at every 7th offset a sticky error that calls itself temporary; at every 5th a one-shot error after which the source would deliver the rest); lines longer than the 16 KiB line buffer before the first dump and at the end of the stream, cut at the buffer multiples; " +
 		"the resume protocol is driven to its first error; oracle: no panic, reader error reported as exactly that value, EOF as EOF or a parse error, goroutines entirely before the cut equal (names aside) to the uncut parse, at most one partial goroutine, forwarded bytes a prefix of the uncut run's " +
 		"real tracebacks of generated programs with their sources on disk are cut at every offset too, scanned with path guessing and source analysis on; " +
 		"(or, when the cut lies before a dump's recognition point, the delivered fragment itself, as C02 demands). distinct = (stream, offset, mode); non-trivial = cut inside a dump")
